@@ -58,12 +58,18 @@ def check(ctx):
     ctx.sites("C15.R1", len(rets), 2, "returns of GaussianModel.fit")
     # ---- R2 -----------------------------------------------------------------------------------------
     ncal = ir.nrows(CONF)
-    e = [(pc, t, n) for pc, t, n in rets if pc]
+    # `if a: return x` + rest and `if a: return x else: rest` give the same path conditions, so "the return without a condition" does not
+    # exist: the main return is the one that fits something, the early one(s) the rest
+    main_ = [r for r in rets if any(x[0] == "call" and x[1][0] == "attr" and x[1][2] in ("_fit", "fit") for x in ir.walk(r[1]))]
+    e = [r for r in rets if r not in main_]
     ok2 = any(pc[-1][1] and pc[-1][0] == ("cmp", "==", ncal, ("const", 0)) and t == ir.repo_call(("attr", SELF, "_empty_gaussian_model"), [("conformalization_data", CONF), ("aggregate", AGG)])
               for pc, t, n in e)
     ctx.ob("C15.R2.empty", f"{f.qualname}|no calibration units => empty model", ok2, f.where(),
            "fit returns the empty model when there are no calibration units" if ok2 else "no early return of the empty model for an empty calibration set")
-    main = [t for pc, t, n in rets if not pc]
+    # the value of fit as a decision tree over its return conditions, below the test for an empty calibration set
+    R = s.ret()
+    EMPTY = ("cmp", "==", ncal, ("const", 0))
+    main = [R[3]] if R[0] == "phi" and R[1] == EMPTY else ([R[2]] if R[0] == "phi" and R[1] == ("cmp", "!=", ncal, ("const", 0)) else [R])
     ctx.require(len(main) == 1 and main[0][0] == "phi", f"{f.where()}: main return is not 'small groups ? combined : per-group fit'")
     COND, COMB, PER = main[0][1], main[0][2], main[0][3]
     # ---- R1 -----------------------------------------------------------------------------------------
@@ -408,8 +414,9 @@ def check(ctx):
          ("bin", "/", ("bin", "+", ("sub", xs, midx), ("sub", xs, ("bin", "+", midx, ("const", 1)))), ("const", 2))),
         (None, ("sub", xs, ("bin", "+", midx, ("const", 1)))),
     ]
-    got = [((pc[-1] if pc else None), t) for pc, t, n in ws.returns]
-    okwm = len(got) == 3 and all((g[0] == w[0] or (w[0] is None and g[0] is None)) and g[1] == w[1] for g, w in zip(got, want_rets))
+    # the function as a decision tree over its return conditions (guard clauses and if / else chains read the same)
+    want_tree = ("phi", want_rets[0][0][0], want_rets[0][1], ("phi", want_rets[1][0][0], want_rets[1][1], want_rets[2][1]))
+    okwm = ws.ret() == want_tree
     ctx.ob("C15.R5.weighted-median", "weighted_median|definition", okwm, wm.where(),
            "weighted median: first element if its weight > 1/2; average of the neighbours when the cumulative weight equals 1/2; else the next element" if okwm
            else "weighted_median no longer follows its definition (sort by value, cumulative weights, 1/2 thresholds)")
